@@ -149,6 +149,7 @@ macro_rules! access_1d_slice_bool {
 macro_rules! access_1d_slice_bool_v {
   ($source:expr, $ix:expr, $out:expr) => {
     unsafe { 
+      if (*$ix).len() != (*$source).len() { panic!("Index out of bounds: logical index length differs from the indexed dimension"); }
       let mut j = 0;
       let out_len = (*$out).len();
       for i in 0..(*$ix).len() {
@@ -173,6 +174,8 @@ macro_rules! access_2d_row_slice_bool {
     unsafe { 
       let scalar_ix = &(*$ix1);
       let vec_ix = &(*$ix2);
+      if vec_ix.len() != (*$source).ncols() { panic!("Index out of bounds: logical index length differs from the indexed dimension"); }
+      if *scalar_ix < 1 || *scalar_ix > (*$source).nrows() { panic!("Index out of bounds: index addresses no element"); }
       let mut j = 0;
       let out_len = (*$out).len();
       for i in 0..vec_ix.len() {
@@ -197,6 +200,8 @@ macro_rules! access_2d_col_slice_bool {
     unsafe { 
       let vec_ix = &(*$ix1);
       let scalar_ix = &(*$ix2);
+      if vec_ix.len() != (*$source).nrows() { panic!("Index out of bounds: logical index length differs from the indexed dimension"); }
+      if *scalar_ix < 1 || *scalar_ix > (*$source).ncols() { panic!("Index out of bounds: index addresses no element"); }
       let mut j = 0;
       let out_len = (*$out).len();
       for i in 0..vec_ix.len() {
@@ -332,6 +337,7 @@ macro_rules! access_2d_slice_all_bool {
   ($source:expr, $ix:expr, $out:expr) => {
     unsafe { 
       let vec_ix = &(*$ix);
+      if vec_ix.len() != (*$source).nrows() { panic!("Index out of bounds: logical index length differs from the indexed dimension"); }
       let mut j = 0;
       let out_len = (*$out).len();
       for i in 0..vec_ix.len() {
@@ -343,8 +349,8 @@ macro_rules! access_2d_slice_all_bool {
         (*$out).resize_vertically_mut(j, (&mut (*$out))[0].clone());
       }
       j = 0;
-      for i in 0..vec_ix.len() {
-        for k in 0..(*$source).ncols() {
+      for k in 0..(*$source).ncols() {
+        for i in 0..vec_ix.len() {
           if vec_ix[i] == true {
             (&mut (*$out))[j] = (*$source).index((i, k)).clone();
             j += 1;
@@ -1213,6 +1219,7 @@ impl NativeFunctionCompiler for MatrixAccessRange {
 macro_rules! access_2d_range_range_vbb {
   ($sink:expr, $ix1:expr, $ix2:expr, $source:expr) => {
     unsafe { 
+      if ($ix1).len() != ($source).nrows() || ($ix2).len() != ($source).ncols() { panic!("Index out of bounds: logical index length differs from the indexed dimension"); }
       let mut sink_rix = 0;
       let mut sink_cix = 0;
       for r in 0..($ix1).len() {
@@ -1251,6 +1258,8 @@ macro_rules! access_2d_range_range_vuu {
 macro_rules! access_2d_range_range_vub {
   ($sink:expr, $ix1:expr, $ix2:expr, $source:expr) => {
     unsafe { 
+      if ($ix2).len() != ($source).ncols() { panic!("Index out of bounds: logical index length differs from the indexed dimension"); }
+      for r in 0..($ix1).len() { if ($ix1)[r] < 1 || ($ix1)[r] > ($source).nrows() { panic!("Index out of bounds: index addresses no element"); } }
       let mut sink_rix = 0;
       let mut sink_cix = 0;
       for r in 0..($ix1).len() {
@@ -1270,6 +1279,8 @@ macro_rules! access_2d_range_range_vub {
 macro_rules! access_2d_range_range_vbu {
   ($sink:expr, $ix1:expr, $ix2:expr, $source:expr) => {
     unsafe { 
+      if ($ix1).len() != ($source).nrows() { panic!("Index out of bounds: logical index length differs from the indexed dimension"); }
+      for c in 0..($ix2).len() { if ($ix2)[c] < 1 || ($ix2)[c] > ($source).ncols() { panic!("Index out of bounds: index addresses no element"); } }
       let mut sink_rix = 0;
       let mut sink_cix = 0;
       for r in 0..($ix1).len() {
@@ -1681,6 +1692,7 @@ macro_rules! assign_2d_all_range_v {
 macro_rules! assign_2d_all_range_vb {
   ($source:expr, $ix:expr, $sink:expr) => {
     {
+      if (*$ix).len() != (*$source).ncols() { panic!("Index out of bounds: logical index length differs from the indexed dimension"); }
       let mut sink_col_ix = 0;
       for i in 0..(*$source).ncols() {
         if $ix[i] == true {
